@@ -311,6 +311,13 @@ where
                 self.execute_code_block(block.body(), cb_table)?;
             }
 
+            // the value which terminated the loop must be ZERO; any other (non-binary) value is
+            // an error, same as for the condition which starts the loop
+            let condition = self.stack.peek();
+            if condition != ZERO {
+                return Err(ExecutionError::NotBinaryValue(condition));
+            }
+
             // end the LOOP block and drop the condition from the stack
             self.end_loop_block(block, true)
         } else if condition == ZERO {
